@@ -14,13 +14,15 @@ pub fn meta() -> Meta {
     Meta {
         id: "C13",
         level: "exploration",
-        rule: "real generic_modes::weed (file -> file, --min-freq 0) on built files at k in {7,31,33} (thorough: + 9, 63), both strand modes, --reverse on and off, against the model (kept rows = rows whose key is / is not a split k-mer of the weed file): weed sets = every window of length k..k+4 of every sample record on a position grid, every union of two such windows from a reduced grid (this includes a record of length exactly k next to a longer one), each as is / reverse-complemented / with an N substituted / lower-case, plus an unrelated sequence, a whole sample and a weed file without any k-mer (must be refused, file unchanged). Every kept row must be byte-identical incl. its stored count, names unchanged; a second application must change nothing; weed and reverse-weed must partition the file. CLI family for in-place vs -o. Non-trivial = the weed set removes at least one and keeps at least one k-mer.".into(),
+        rule: "real generic_modes::weed (file -> file, --min-freq 0) on built files at k in {7,31,33} (thorough: + 9, 63), both strand modes, the strands-merged file additionally with its rows stored in three different rotations of key order (row order carries no meaning), --reverse on and off, against the model (kept rows = rows whose key is / is not a split k-mer of the weed file): weed sets = every window of length k..k+4 of every sample record on a position grid, every union of two such windows from a reduced grid (this includes a record of length exactly k next to a longer one), each as is / reverse-complemented / with an N substituted / lower-case, plus an unrelated sequence, a whole sample and a weed file without any k-mer (must be refused, file unchanged). Every kept row must be byte-identical incl. its stored count, names unchanged; a second application must change nothing; weed and reverse-weed must partition the file. CLI family for in-place vs -o. Non-trivial = the weed set removes at least one and keeps at least one k-mer.".into(),
         assumptions: vec!["--min-freq 0 (the default 0.9 additionally applies a frequency filter, checked under C10)".into()],
         exhaustive_when_uncapped: true,
     }
 }
 
 struct File {
+    rot: usize,
+    seed: u64,
     k: usize,
     rc: bool,
     path: String,
@@ -54,8 +56,8 @@ fn check_weed(rep: &mut Report, f: &File, seqs: &[Vec<u8>], what: &str) {
         let _ = std::fs::remove_file(&out);
         let wk = build(seqs, f.k, f.rc);
         let want = f.state.table.weed(seqs, reverse);
-        let key = || format!("k={} rc={} reverse={reverse} {what} weed={}", f.k, f.rc, seqs.iter().map(|s| String::from_utf8_lossy(s).to_string()).collect::<Vec<_>>().join("|"));
-        let case = || json!({"k": f.k, "rc": f.rc, "reverse": reverse, "weed": seqs.iter().map(|s| String::from_utf8_lossy(s).to_string()).collect::<Vec<_>>(), "what": what});
+        let key = || format!("k={} rc={} rot={} reverse={reverse} {what} weed={}", f.k, f.rc, f.rot, seqs.iter().map(|s| String::from_utf8_lossy(s).to_string()).collect::<Vec<_>>().join("|"));
+        let case = || json!({"k": f.k, "rc": f.rc, "rot": f.rot, "seed": f.seed, "reverse": reverse, "weed": seqs.iter().map(|s| String::from_utf8_lossy(s).to_string()).collect::<Vec<_>>(), "what": what});
         let res = ops::op_weed(&f.path, &WeedArgs::plain(&wpath, reverse), &out);
         if wk.is_empty() {
             // no k-mer in the weed file: must be refused (nothing written)
@@ -116,23 +118,27 @@ fn check_weed(rep: &mut Report, f: &File, seqs: &[Vec<u8>], what: &str) {
 pub fn replay(case: &Value) -> Result<Option<String>, String> {
     let k = case["k"].as_u64().ok_or("k")? as usize;
     let rc = case["rc"].as_bool().ok_or("rc")?;
-    let f = make_file(k, rc, 0)?;
+    let f = make_file(k, rc, case["seed"].as_u64().unwrap_or(0), case["rot"].as_u64().unwrap_or(0) as usize)?;
     let seqs: Vec<Vec<u8>> = case["weed"].as_array().ok_or("weed")?.iter().map(|s| s.as_str().unwrap().as_bytes().to_vec()).collect();
     let mut rep = Report::default();
     check_weed(&mut rep, &f, &seqs, "replay");
     Ok(rep.violations.iter().find(|v| v.case["reverse"] == case["reverse"]).map(|v| v.what.clone()))
 }
 
-fn make_file(k: usize, rc: bool, seed: u64) -> Result<File, String> {
+fn make_file(k: usize, rc: bool, seed: u64, rot: usize) -> Result<File, String> {
     let pool = samples::pool(k, seed);
     let pick = [0usize, 1, 3, 5];
     let names: Vec<String> = pick.iter().map(|i| format!("s{i}")).collect();
     let paths: Vec<String> = pick.iter().map(|i| scratch::write(&format!("c13_s{i}.fa"), &scratch::fasta(&pool[*i]))).collect();
-    let path = scratch::path(&format!("c13_{k}_{rc}.skf"));
+    let path = scratch::path(&format!("c13_{k}_{rc}_{rot}.skf"));
     ops::op_build(&names, &paths, k, rc, &path)?;
     let state = FileState::read(&path)?;
+    // rewrite with a deterministic row order (key order rotated): the stored order is otherwise the
+    // builder's hash order, which differs from process to process
+    let nrows = state.table.rows.len().max(1);
+    state.write_rot(&path, (rot * nrows) / 3 + rot);
     let records: Vec<Vec<u8>> = pick.iter().flat_map(|i| pool[*i].clone()).collect();
-    Ok(File { k, rc, path, state, records })
+    Ok(File { rot, seed, k, rc, path, state, records })
 }
 
 pub fn run(ctx: &Ctx, rep: &mut Report) {
@@ -140,8 +146,8 @@ pub fn run(ctx: &Ctx, rep: &mut Report) {
     let ks: Vec<usize> = if thorough { vec![7, 9, 31, 33, 63] } else { vec![7, 31, 33] };
     let mut idx = 0u64;
     'all: for k in ks {
-        for rc in [true, false] {
-            let f = match make_file(k, rc, ctx.seed) {
+        for (rc, rot) in [(true, 0usize), (false, 0), (true, 1), (true, 2)] {
+            let f = match make_file(k, rc, ctx.seed, rot) {
                 Ok(f) => f,
                 Err(e) => {
                     rep.machinery(format!("C13 cannot build start file: {e}"));
@@ -245,7 +251,7 @@ pub fn run(ctx: &Ctx, rep: &mut Report) {
                     rep.violate(format!("cli weed without k-mers k={k} rc={rc}"), format!("weed file without k-mers: exit {} and file {}", o.code, if same { "unchanged" } else { "changed" }), json!({"cli": true, "k": k, "rc": rc, "empty": true}));
                 }
             }
-            rep.completed.push(format!("k={k} rc={rc}"));
+            rep.completed.push(format!("k={k} rc={rc} row-order {rot}"));
         }
     }
     rep.sample(json!({"k": 7, "weed": ["<window of 7 letters of sample s0>", "<window of 9 letters>"], "checks": "kept rows = model; counts unchanged; second weed = identity; both --reverse settings"}));
